@@ -264,14 +264,14 @@ func (w *World) acct(addr []byte) *MAcct {
 func (w *World) cause(addr []byte, c string) {
 	if w.balCause == nil {
 		w.txIdx = 0
-	if w.EVM != nil {
-		w.EVM.BeginBlock()
-	}
-	w.balCause = map[string]map[string]bool{}
-	w.balStart = map[string]*uint256.Int{}
-	for k, a := range w.Accts {
-		w.balStart[k] = a.Bal.Clone()
-	}
+		if w.EVM != nil {
+			w.EVM.BeginBlock()
+		}
+		w.balCause = map[string]map[string]bool{}
+		w.balStart = map[string]*uint256.Int{}
+		for k, a := range w.Accts {
+			w.balStart[k] = a.Bal.Clone()
+		}
 	}
 	m := w.balCause[ak(addr)]
 	if m == nil {
